@@ -191,6 +191,9 @@ def gen_config(rng, target):
                min_freq_mod=rng.choice([None, None, 0.05, 0.1, 0.2]))
     if target != "continuous":
         cfg["sort_by"] = rng.choice(["tschuprowt", "cramerv"])
+    # user-chosen markers for missing / default values (`**kwargs` of every class), 15% of the configurations
+    if rng.random() < 0.15:
+        cfg["markers"] = rng.choice([{"str_nan": "MISSING"}, {"str_default": "RARE"}, {"str_nan": "MISSING", "str_default": "RARE"}])
     return cfg
 
 
@@ -201,7 +204,7 @@ def make_carver(ds, cfg, copy=True, n_jobs=1):
     kw = dict(min_freq=cfg["min_freq"], quantitative_features=list(ds["quantitative"]),
               qualitative_features=list(ds["qualitative"]), ordinal_features=list(ds["ordinal"]),
               values_orders=vo, max_n_mod=cfg["max_n_mod"], output_dtype=cfg["output_dtype"],
-              dropna=cfg["dropna"], copy=copy, verbose=False, n_jobs=n_jobs)
+              dropna=cfg["dropna"], copy=copy, verbose=False, n_jobs=n_jobs, **cfg.get("markers", {}))
     if ds["target"] == "binary":
         return BinaryCarver(sort_by=cfg["sort_by"], min_freq_mod=cfg["min_freq_mod"], **kw)
     if ds["target"] == "continuous":
@@ -224,32 +227,33 @@ DISC_CLASSES = ["Discretizer", "QuantitativeDiscretizer", "QualitativeDiscretize
                 "OrdinalDiscretizer", "CategoricalDiscretizer", "StringDiscretizer"]
 
 
-def make_discretizer(cls, ds, cfg, copy=True):
+def make_discretizer(cls, ds, cfg, copy=True, n_jobs=1):
     """returns (object, features it handles) or None when the class does not apply to the dataset"""
     from AutoCarver import discretizers as D
     from AutoCarver.discretizers import GroupedList
     vo = {k: GroupedList(list(v)) for k, v in ds["values_orders"].items()}
     mf = cfg["min_freq"]
+    mk = dict(cfg.get("markers", {}), n_jobs=n_jobs)
     q, c, o = list(ds["quantitative"]), list(ds["qualitative"]), list(ds["ordinal"])
     str_only = [f for f in c if all(isinstance(v, str) or v is None or (isinstance(v, float) and math.isnan(v)) for v in ds["X"][f])]
     if cls == "Discretizer":
         return D.Discretizer(quantitative_features=q, qualitative_features=c, ordinal_features=o, min_freq=mf,
-                             values_orders=vo, copy=copy)
+                             values_orders=vo, copy=copy, **mk)
     if cls == "QuantitativeDiscretizer":
-        return D.QuantitativeDiscretizer(quantitative_features=q, min_freq=mf, copy=copy) if q else None
+        return D.QuantitativeDiscretizer(quantitative_features=q, min_freq=mf, copy=copy, **mk) if q else None
     if cls == "QualitativeDiscretizer":
         return D.QualitativeDiscretizer(qualitative_features=c, ordinal_features=o, min_freq=mf, values_orders=vo,
-                                        copy=copy) if (c or o) else None
+                                        copy=copy, **mk) if (c or o) else None
     if cls == "ContinuousDiscretizer":
-        return D.ContinuousDiscretizer(quantitative_features=q, min_freq=mf, copy=copy) if q else None
+        return D.ContinuousDiscretizer(quantitative_features=q, min_freq=mf, copy=copy, **mk) if q else None
     if cls == "OrdinalDiscretizer":
         return D.OrdinalDiscretizer(ordinal_features=o, min_freq=mf, values_orders={k: v for k, v in vo.items() if k in o},
-                                    copy=copy) if o else None
+                                    copy=copy, **mk) if o else None
     if cls == "CategoricalDiscretizer":
         return D.CategoricalDiscretizer(qualitative_features=str_only, min_freq=mf,
-                                        values_orders={k: v for k, v in vo.items() if k in str_only}, copy=copy) if str_only else None
+                                        values_orders={k: v for k, v in vo.items() if k in str_only}, copy=copy, **mk) if str_only else None
     if cls == "StringDiscretizer":
-        return D.StringDiscretizer(qualitative_features=c, copy=copy) if c else None
+        return D.StringDiscretizer(qualitative_features=c, copy=copy, **mk) if c else None
     raise ValueError(cls)
 
 
